@@ -33,8 +33,13 @@ func c09wire(m message.Message) []byte {
 func VerifC09_PubsubPath() {
 	self, sender, orig := c09pid(0x5e), c09pid(0xaa), c09pid(0xbb)
 	allowOrig := verif_Bool("origAllowed")
+	// the relaying sender need not be on the allow list itself
+	allowSender := verif_Bool("senderAllowed")
 	topic := &pubsub.Topic{}
 	r, err := NewReceiver(c09host{id: self}, "", WithTopic(topic), WithResend(true), WithAllowPeer(func(p peer.ID) bool {
+		if p == sender {
+			return allowSender
+		}
 		return p != orig || allowOrig
 	}))
 	verif_Assume(err == nil)
@@ -60,39 +65,42 @@ func VerifC09_PubsubPath() {
 	default:
 	}
 	switch {
+	case kind == 0 && from == sender && !allowSender:
+		verif_Assert(got == nil, "the allow filter is applied to the sender of a message that is not a republication")
 	case kind == 0:
 		verif_Assert(got != nil && got.PeerID == from && got.Cid == c09cid(7), "a pubsub announcement is delivered with its sender as publisher and its CID unchanged")
 	case kind == 1 && from == self:
 		verif_Assert(got == nil, "the receiver ignores its own republications")
 	case kind == 1:
 		if allowOrig {
-			verif_Assert(got != nil && got.PeerID == orig && got.Cid == c09cid(7), "a republished message is attributed to its original publisher")
+			verif_Assert(got != nil && got.PeerID == orig && got.Cid == c09cid(7), "a republished message is attributed to its original publisher, and the allow filter judges that publisher, not the relay")
 		} else {
 			verif_Assert(got == nil, "the allow filter is applied to the original publisher of a republished message")
 		}
 	case kind == 2 && from != self:
 		verif_Assert(got == nil, "a republished message whose original peer cannot be read is dropped")
 	}
+	third := c09pid(0xcc)
 	// a direct announcement is republished with the original publisher recorded
 	before := len(verif_PubsubPublished(topic))
-	derr := r.Direct(context.Background(), c09cid(8), peer.AddrInfo{ID: sender})
+	derr := r.Direct(context.Background(), c09cid(8), peer.AddrInfo{ID: third})
 	verif_Assert(derr == nil, "direct announcement accepted")
 	pub := verif_PubsubPublished(topic)
 	verif_Assert(len(pub) == before+1, "a direct announcement is republished once")
 	if len(pub) == before+1 {
 		var rm message.Message
-		verif_Assert(rm.UnmarshalCBOR(bytes.NewReader(pub[before])) == nil && rm.Cid == c09cid(8) && rm.OrigPeer == sender.String(), "the republished message carries the CID and the original publisher")
+		verif_Assert(rm.UnmarshalCBOR(bytes.NewReader(pub[before])) == nil && rm.Cid == c09cid(8) && rm.OrigPeer == third.String(), "the republished message carries the CID and the original publisher")
 	}
 	// republishing is best effort: when it fails the announcement is delivered all the same
 	verif_PubsubPublishFails(true)
 	for len(r.outChan) > 0 {
 		<-r.outChan
 	}
-	derr = r.Direct(context.Background(), c09cid(9), peer.AddrInfo{ID: sender})
+	derr = r.Direct(context.Background(), c09cid(9), peer.AddrInfo{ID: third})
 	verif_Assert(derr == nil, "a direct announcement whose republication fails is still accepted")
 	select {
 	case a := <-r.outChan:
-		verif_Assert(a.Cid == c09cid(9) && a.PeerID == sender, "and delivered")
+		verif_Assert(a.Cid == c09cid(9) && a.PeerID == third, "and delivered")
 	default:
 		verif_Assert(false, "an allowed, unseen announcement is delivered even if it cannot be republished")
 	}
